@@ -26,7 +26,7 @@ class Ctx:
         self.tier = tier
         self.seed = seed
         self.t0 = time.time()
-        self.work = os.path.join(VERIF, "work", prop if REPO == "/repo" else "seed-" + prop)
+        self.work = os.path.join(VERIF, "work", prop if REPO == "/repo" else "seed-" + os.path.basename(REPO) + "-" + prop)
         shutil.rmtree(self.work, ignore_errors=True)
         os.makedirs(self.work, exist_ok=True)
         self.violations = []       # dicts: cat, detail, replay
@@ -55,7 +55,12 @@ class Ctx:
             gm = open(os.path.join(hsrc, "go.mod")).read().replace("=> /repo", "=> " + REPO)
             open(os.path.join(hsrc, "go.mod"), "w").write(gm)
         shutil.copyfile(os.path.join(REPO, "go.sum"), os.path.join(hsrc, "go.sum"))
-        p = subprocess.run(["go", "build", "-tags", "verif", "-o", out, "./cmd/gkvdrive"],
+        cover = []
+        if os.environ.get("VERIF_COVER"):
+            # diagnostic only: statement coverage of the library under the drivers
+            # (run with GOCOVERDIR set; see bin/coverage)
+            cover = ["-cover", "-coverpkg=verifharness/...,github.com/cbehopkins/gkvlite"]
+        p = subprocess.run(["go", "build", "-tags", "verif"] + cover + ["-o", out, "./cmd/gkvdrive"],
                            cwd=hsrc, env=env, capture_output=True, text=True)
         if p.returncode != 0:
             raise Broken("harness build failed:\n" + p.stdout + p.stderr)
